@@ -119,10 +119,12 @@ Proof.
   apply (load_recased rf T f d d' H).
 Qed.
 
+(* (the expanded document must still be one: two keys of an object may become equal by expansion) *)
 Hypothesis expand_render : forall f env d,
-  rep_top d = true -> parse f (expand_text env (render f d)) = Some (shape rf f (expand_doc env d)).
+  rep_top d = true -> rep_top (expand_doc env d) = true ->
+  parse f (expand_text env (render f d)) = Some (shape rf f (expand_doc env d)).
 
-Lemma env_requested_lemma : forall T f env d, rep_top d = true ->
+Lemma env_requested_lemma : forall T f env d, rep_top d = true -> rep_top (expand_doc env d) = true ->
   load_file_text T f true env (render f d) = load_doc rf T f (expand_doc env d).
 Proof. intros. unfold load_file_text, load_text, load_doc. rewrite expand_render by assumption. reflexivity. Qed.
 
@@ -131,12 +133,12 @@ Lemma env_not_requested_lemma : forall T f env d,
 Proof. reflexivity. Qed.
 
 Lemma env_format_independent_lemma : forall T env d,
-  fam_fields T = true -> rep_top d = true -> leaves_ok rf (expand_doc env d) = true ->
+  fam_fields T = true -> rep_top d = true -> rep_top (expand_doc env d) = true -> leaves_ok rf (expand_doc env d) = true ->
   float_positions_ok T (expand_doc env d) = true ->
   rsim gsim (load_file_text T FYaml true env (render FYaml d)) (load_file_text T FJson true env (render FJson d)) /\
   rsim gsim (load_file_text T FToml true env (render FToml d)) (load_file_text T FJson true env (render FJson d)).
 Proof.
-  intros T env d Hfam Hrep Hl Hpos. rewrite !env_requested_lemma by exact Hrep.
+  intros T env d Hfam Hrep Hrep' Hl Hpos. rewrite !env_requested_lemma by assumption.
   split; apply load_sim; auto; discriminate.
 Qed.
 End Oracles.
